@@ -102,7 +102,7 @@ func scenUnflushedAck(e *engineA) error {
 		e.net.Cut(f.label, l.label, false)
 		e.net.Release(f.label, l.label, true)
 	}
-	e.waitFor(40, func() bool { return l.crashed })
+	e.waitFor(40, func() bool { return l.isCrashed() })
 	e.rc.onNodeEvent = nil
 	e.sleepHB(1, 3)
 	e.cl.recoverCrashed()
